@@ -14,7 +14,7 @@ structure MetricBase (α : Type) where
   min_denominator : α            -- `_min_denominator`
   mae : α                        -- `residuals.abs().mean()`
   r_squared : α                  -- `corr()[predicted, observed] ** 2`
-  n_prime : α                    -- `n (1 − ρ₁) / (1 + ρ₁)`, 1 when not finite
+  residuals_autocorr1 : α        -- `residuals.autocorr(lag=1)`
   observed_mean : α
   observed_iqr : α
   residuals_mean : α
